@@ -390,6 +390,12 @@ def run_k7(chk, prog, rule="K7"):
         if all(bd.bounded(src, pt, Cap(const=(1 << w) - 1, desc="%d-bit field" % w)) for pt in points):
             chk.ok(rule, inst, i, "value is derivably <= %d where it is stored (guards / clamps / masks / widths)" % ((1 << w) - 1))
             continue
+        # providers and exceptions speak about what the *field* holds; the function named with them is where the store
+        # sat when they were written -- a store of the same field that moved into a helper is judged the same way
+        if key not in PROVIDERS and key not in EXCEPTIONS:
+            alt = [k for k in list(PROVIDERS) + list(EXCEPTIONS) if k[1] == fld]
+            if len({(k in PROVIDERS, PROVIDERS.get(k) or EXCEPTIONS.get(k)) for k in alt}) == 1:
+                key = alt[0]
         if key in PROVIDERS:
             ok, txt = PROVIDERS[key](prog, fld)
             if ok:
